@@ -589,3 +589,109 @@ func c18r3(p *Program, r *Report) {
 	_ = fmt.Sprint
 	_ = types.Typ
 }
+
+// finishLength: the length patched into the header is the number of body bytes of the buffer as it is when the
+// length is written: `len(f.buf) - f.headSize` evaluated at the call, or a local that was computed that way after
+// the last replacement of f.buf (a value computed before the body is compressed announces the uncompressed size).
+func finishLength(p *Program, r *Report) {
+	fi := r.NeedFunc("(*framer).finish")
+	if fi == nil {
+		return
+	}
+	bufField := p.Field("framer", "buf")
+	units := append([]*FuncInfo{fi}, p.privateCallees(fi)...)
+	assignsBuf := func(fn *FuncInfo, n ast.Node) bool {
+		info := fn.Pkg.TypesInfo
+		for _, l := range assignedLHS(n) {
+			if fv := fieldOf(info, l); fv != nil && fv == bufField {
+				return true
+			}
+		}
+		return false
+	}
+	// helpers that replace the buffer
+	replaces := map[*FuncInfo]bool{}
+	for _, u := range units {
+		ast.Inspect(u.Decl.Body, func(x ast.Node) bool {
+			if assignsBuf(u, x) {
+				replaces[u] = true
+			}
+			return true
+		})
+	}
+	n := 0
+	for _, fn := range units {
+		info := fn.Pkg.TypesInfo
+		for _, c := range callsIn(fn.Decl.Body) {
+			if !isCallTo(info, c, "(*framer).setLength") || len(c.Args) != 1 {
+				continue
+			}
+			n++
+			name := fn.Name + ": the patched length counts the bytes that follow the header when it is written"
+			id, isId := ast.Unparen(c.Args[0]).(*ast.Ident)
+			if !isId {
+				got := strings.ReplaceAll(exprStr(c.Args[0]), " ", "")
+				r.Check(got == "len(f.buf)-f.headSize", c, name, "len(f.buf) - f.headSize evaluated at the call", "the patched length is "+got+", not the number of bytes after the header")
+				continue
+			}
+			obj := info.Uses[id]
+			var def *ast.AssignStmt
+			ndef := 0
+			ast.Inspect(fn.Decl.Body, func(x ast.Node) bool {
+				if as, ok := x.(*ast.AssignStmt); ok {
+					for _, l := range as.Lhs {
+						if lid, ok := l.(*ast.Ident); ok && (info.Defs[lid] == obj || info.Uses[lid] == obj) {
+							def = as
+							ndef++
+						}
+					}
+				}
+				return true
+			})
+			if def == nil || ndef != 1 || len(def.Lhs) != 1 || len(def.Rhs) != 1 {
+				r.Unresolved("%s: the length handed to setLength is not a local with a single definition", fn.Name)
+				continue
+			}
+			got := strings.ReplaceAll(exprStr(def.Rhs[0]), " ", "")
+			if got != "len(f.buf)-f.headSize" {
+				r.Bad(c, name, "the patched length is "+got+", not the number of bytes after the header")
+				continue
+			}
+			g := p.GraphOf(fn)
+			// 0: not computed, 1: computed from the current buffer, 2: the buffer was replaced since
+			sol := Solve(g, Lattice[int]{
+				Join: func(a, b int) int {
+					if a > b {
+						return a
+					}
+					return b
+				},
+				Eq: func(a, b int) bool { return a == b },
+				Step: func(s int, st Step) int {
+					if st.Kind != StNode {
+						return s
+					}
+					if st.Node == ast.Node(def) {
+						return 1
+					}
+					repl := assignsBuf(fn, st.Node)
+					for _, hc := range callsIn(st.Node) {
+						if hf := calleeOf(info, hc); hf != nil && replaces[p.FuncOf(hf)] {
+							repl = true
+						}
+					}
+					if repl && s == 1 {
+						return 2
+					}
+					return s
+				},
+			})
+			st, ok := sol.Before(p.stmtOf(c, fn))
+			r.Check(ok && st == 1, c, name, id.Name+" = len(f.buf) - f.headSize, computed after the last replacement of f.buf",
+				"the length written into the header ("+id.Name+", computed at "+p.Pos(def)+") is taken before f.buf is replaced by its compressed form on a path to the patch: a compressed frame announces the size of the uncompressed body, so the peer waits for bytes that never come or reads the next frame's header as body")
+		}
+	}
+	if n == 0 {
+		r.Unresolved("finish: no setLength call")
+	}
+}
